@@ -389,6 +389,7 @@ void WebSocket::send(const byte* p, int length, FrameType type)
 {
 	if (length <= 0 || _closed)
 		return;
+	Lock lock(_sendMutex); // one frame at a time: a pong from the receiving thread must not land inside another frame
 	byte opcode = (type == FRAME_TEXT) ? 1 : (type == FRAME_BINARY) ? 2 : (type == FRAME_PONG) ? 10 : (type == FRAME_PING) ? 9 : 8;
 	byte b0 = 0x80 | opcode;
 	byte masked = _isClient ? 0x80 : 0;
